@@ -222,6 +222,20 @@ def also_minimal(out, spec, fh, open_fn, model, requests, tag, limit: int = 4 <<
             return
         check_reads(out, v, model, requests[:4], tag + "-reopen")
         return
+    if how == "tempfile":
+        # an anonymous temporary file (tempfile.TemporaryFile(), os.fdopen(fd)): a real file object whose .name is a descriptor number
+        import tempfile
+
+        out.cls("via-anonymous-tempfile")
+        with tempfile.TemporaryFile(dir="/dev/shm" if os.path.isdir("/dev/shm") else None) as tf:
+            tf.write(fh.materialize(limit))
+            tf.seek(0)
+            v, err = lib(open_fn, tf)
+            if err:
+                out.fail(err.sig(tag + "-tempfile-open"), f"open on a tempfile.TemporaryFile() raised {err.describe()}")
+                return
+            check_reads(out, v, model, requests[:4], tag + "-tempfile")
+        return
     if how == "shared":
         # two readers over one caller-owned file object, used in turn (each must position the handle itself), with the caller
         # also moving the handle in between
